@@ -259,3 +259,53 @@ Definition life_cycle_fns : list string := ["snoopy_tsrm_ctor"; "snoopy_configur
 Definition wrapper_names_ok (fns : list libfn) (externals : list string) (names : list string) : bool :=
   forallb (fun f => str_in f life_cycle_fns || neutral_fn fns externals f) names.
 Definition field_of (k : key) : string := match k with KC _ f => f | _ => "" end.
+
+(** * Flags of descriptor-creating calls, and the inventory of objects with static storage *)
+Fixpoint expr_vars (e : sexpr) : list string :=
+  match e with
+  | XVar v => [v]
+  | XCast a | XDeref a | XAddr a | XMember a _ => expr_vars a
+  | XIndex a b => expr_vars a ++ expr_vars b
+  | XCall _ l | XOp _ l => flat_map expr_vars l
+  | XCallPtr p l => expr_vars p ++ flat_map expr_vars l
+  | _ => []
+  end.
+(** argument lists of every call of [f] inside an expression / statement *)
+Fixpoint ecall_args (f : string) (e : sexpr) : list (list sexpr) :=
+  match e with
+  | XCall g l => (if String.eqb f g then [l] else []) ++ flat_map (ecall_args f) l
+  | XCallPtr p l => ecall_args f p ++ flat_map (ecall_args f) l
+  | XCast a | XDeref a | XAddr a | XMember a _ => ecall_args f a
+  | XIndex a b => ecall_args f a ++ ecall_args f b
+  | XOp _ l => flat_map (ecall_args f) l
+  | _ => []
+  end.
+Fixpoint scall_args (f : string) (s : sstmt) : list (list sexpr) :=
+  match s with
+  | SExpr e => ecall_args f e
+  | SDecl _ _ (Some e) => ecall_args f e
+  | SAssign l r => ecall_args f l ++ ecall_args f r
+  | SIf c t e => ecall_args f c ++ flat_map (scall_args f) t ++ flat_map (scall_args f) e
+  | SLoop c b => ecall_args f c ++ flat_map (scall_args f) b
+  | SSeq l => flat_map (scall_args f) l
+  | SReturn (Some e) => ecall_args f e
+  | _ => []
+  end.
+Definition socket_calls (fns : list libfn) : list (string * list sexpr) :=
+  flat_map (fun lf => match lf_skel lf with Some sk => map (fun a => (lf_name lf, a)) (flat_map (scall_args "socket") (sk_body sk)) | None => [] end) fns.
+(** every socket the library creates is close-on-exec from the start: another thread's (or a forked child's) exec while the record is being sent
+    does not inherit it *)
+Definition sockets_cloexec (fns : list libfn) : bool :=
+  forallb (fun c => match snd c with [_; t; _] => str_in "SOCK_CLOEXEC" (expr_vars t) | _ => false end) (socket_calls fns).
+
+(** objects with static storage defined by the library (file scope and function-local statics): anything the library writes there outlives
+    the call.  The inventory of the verified tree: registries (never written after load), the option registry, the test switches of
+    configuration.c (written before init only), tsrm's once-control / mutex / repository, the constant defaults of the input data storage,
+    and the two global records of the non-thread-safe build. *)
+Definition known_static_objects : list string :=
+  ["snoopy_configfile_optionRegistry"; "snoopy_configuration_configFileParsingEnabled"; "snoopy_configuration_altConfigFilePath";
+   "snoopy_configuration_altConfigFilePathBuf"; "snoopy_datasourceregistry_names"; "snoopy_datasourceregistry_ptrs"; "snoopy_filterregistry_names";
+   "snoopy_filterregistry_ptrs"; "snoopy_outputregistry_names"; "snoopy_outputregistry_ptrs"; "snoopy_inputdatastorage_setDefaults:empty_string";
+   "snoopy_inputdatastorage_setDefaults:empty_string_array"; "snoopy_tsrm_init_onceControl"; "snoopy_tsrm_threadRepo_mutex"; "snoopy_tsrm_threadRepo_mutexAttr";
+   "snoopy_tsrm_threadRepo_data"; "snoopy_tsrm_threadRepo"; "snoopy_configuration_data"; "snoopy_inputdatastorage_data"].
+Definition new_static_objects (objs : list string) : list string := filter (fun o => negb (str_in o known_static_objects)) objs.
